@@ -628,7 +628,10 @@ func (fr *Frame) execInstr(st *State, in ssa.Instruction) {
 			}
 			return
 		}
-		if _, isVar := obj.(*types.Var); !isVar {
+		if vobj, isVar := obj.(*types.Var); !isVar || vobj.IsField() {
+			return
+		}
+		if _, isIdent := x.Expr.(*ast.Ident); !isIdent {
 			return
 		}
 		v := fr.val(st, x.X)
@@ -735,6 +738,7 @@ func (fr *Frame) execInstr(st *State, in ssa.Instruction) {
 			a.typ = pt
 		}
 		fr.checkTransition(st, in, a, v)
+		fr.checkGuard(st, a, "write")
 		r.store(st, a, v)
 	case *ssa.Convert:
 		fr.convert(st, x)
@@ -877,6 +881,7 @@ func (fr *Frame) unop(st *State, x *ssa.UnOp) {
 		if a.typ == nil {
 			a.typ = pt
 		}
+		fr.checkGuard(st, a, "read")
 		v := r.load(st, a)
 		v.S = r.define(x.Name(), v.Sort, v.S)
 		r.assumeGlobal(r.typeInv(v.S, pt, st))
